@@ -7,6 +7,7 @@ Objects are named by the order in which they were first handed out (never by add
 liveness is observed through weakref.ref, registries through cls._instanceNames /
 cls._instanceCanon and cross-checked against the public show_singletons()."""
 import gc, weakref
+from valfmt import Err
 
 ZOO = []            # classes in class-table order
 ORIG_ID = {}
@@ -279,11 +280,17 @@ class ShowSingletonsMismatch(Exception):
     pass
 
 
+_runs = [0]
+
+
 def run_history(nslots, ops, watch):
     build_zoo()
     was = gc.isenabled()
-    gc.collect()
-    gc.disable()
+    if _runs[0] % 512 == 0:
+        gc.collect()          # cyclic garbage of earlier requests; never needed for the singletons themselves
+    _runs[0] += 1
+    gc.disable()              # release must be immediate (reference counting), not helped by the collector
+    m = None
     try:
         reset()
         m = Machine(nslots, watch)
@@ -297,7 +304,6 @@ def run_history(nslots, ops, watch):
         reset()
         if was:
             gc.enable()
-        gc.collect()
 
 
 def register(op):
@@ -309,3 +315,14 @@ def register(op):
     def _(a):
         _, nslots, ops, watch = a
         return run_history(nslots, ops, watch)
+
+    @op("histories")
+    def _(a):
+        _, nslots, hs, watch = a
+        out = []
+        for ops in hs:
+            try:
+                out.append(run_history(nslots, ops, watch))
+            except Exception as e:       # a broken observation is an outcome of that history only
+                out.append(Err(type(e).__name__))
+        return out
